@@ -296,3 +296,17 @@ MANIFEST_TEXT["C19"]["level_text"] += " The same message object is marshalled ag
 for _p in MANIFEST_TEXT:
     if _p in ("C01", "C02", "C03", "C04", "C05", "C06", "C07", "C08", "C09", "C10", "C12", "C15", "C16", "C17", "C20"):
         MANIFEST_TEXT[_p]["level_text"] += " Every other batch runs with gRPC's verbose logging enabled (GRPC_GO_LOG_VERBOSITY_LEVEL=99, output discarded) so that the library's log statements are executed under the monitors."
+
+# rounds 8-10
+MANIFEST_TEXT["C01"]["level_text"] += " A key removed by a successful UNBIND must be routed like an unknown key afterwards (directed sequence: the home is reported SHUTDOWN while the UNBIND is in flight); keys with surrounding whitespace are keys of their own."
+MANIFEST_TEXT["C08"]["level_text"] += " After a stand-in episode the key must go back home also when the home's old connection was shut down during its refresh and the replacement took over."
+MANIFEST_TEXT["C20"]["level_text"] += " Resolved lists carry entries with the same host:port and different server names or of the deprecated balancer type (address identity = host:port, server name, type); 8% of the histories start with a resolver error before the first update; a panic in or a lock left held by ResolverError is a violation."
+MANIFEST_TEXT["C05"]["level_text"] += " 10% of the hostile histories start with a state report before any configuration (half of them after a rejected foreign balancer config)."
+MANIFEST_TEXT["C06"]["level_text"] += " 6% of the configurations carry a BindPickStrategy value this version does not know; a round-robin waiter that is not released is reported under this property in its own runs."
+MANIFEST_TEXT["C09"]["level_text"] += " One stress scenario leaves a round-robin BIND waiting for 1.3-1.7 s of real time with its context alive."
+MANIFEST_TEXT["C11"]["level_text"] += " A path through a bytes field must give an error or no keys; identifiers with surrounding whitespace name no field; every third case repeats the extraction, protobuf cases extract again after the message was changed in place."
+MANIFEST_TEXT["C12"]["level_text"] += " The caller's context of a unary call ends before or during the invoker in two thirds of the cases; every other successful stream scenario ends with io.EOF from the underlying RecvMsg followed by Trailer and SendMsg (same stream, nothing created)."
+MANIFEST_TEXT["C13"]["level_text"] += " One history in five uses a 37 microsecond time unit."
+MANIFEST_TEXT["C14"]["level_text"] += " One history in five uses a 37 microsecond time unit (timeouts and delays that are not whole milliseconds)."
+MANIFEST_TEXT["C16"]["level_text"] += " RPCs, updates and Close run under watchdogs (a call that never returns after a rejected update is a violation); an update whose list names an endpoint twice must be accepted or rejected completely."
+MANIFEST_TEXT["C19"]["level_text"] += " Values nested 40-700 levels deep are generated."
